@@ -102,10 +102,28 @@ func Harness_C39_OutboxExactlyOnce() {
 		}
 	}
 	drain()
-	applySource(EncodeEnterFenceCommand(hashSlot))
-	drain()
-	late := applySource(c39Write())
+	var late []byte
+	lateWrite := EncodeUpsertUserCommand(metadb.User{UID: "u-late", Token: "t"}) // concrete: which write it is does not matter here
+	if zzsym.Choice("fence.batch", 2) == 1 {
+		// the fence and a later write for the same hash slot share ONE apply batch
+		srcIndex += 2
+		res, err := src.ApplyBatch(ctx, []multiraft.Command{
+			{SlotID: multiraft.SlotID(sourceSlot), HashSlot: hashSlot, Index: srcIndex - 1, Term: 1, Data: EncodeEnterFenceCommand(hashSlot)},
+			{SlotID: multiraft.SlotID(sourceSlot), HashSlot: hashSlot, Index: srcIndex, Term: 1, Data: lateWrite}})
+		zzsym.Assert(err == nil && len(res) == 2, "the source fails on a batch holding the fence and a later write")
+		if err == nil && len(res) == 2 {
+			late = res[1]
+		}
+		zzsym.Reach("fence-shares-batch")
+	} else {
+		applySource(EncodeEnterFenceCommand(hashSlot))
+		late = applySource(lateWrite)
+	}
 	zzsym.Assert(string(late) == ApplyResultHashSlotFenced, "the source accepts a write for the hash slot after the fence")
+	drain()
+	// the fence is durable: a write in a later batch is refused as well
+	later := applySource(lateWrite)
+	zzsym.Assert(string(later) == ApplyResultHashSlotFenced, "the source accepts a write for the hash slot in a batch after the fence")
 	zzsym.Reach("outbox-drained")
 	deltas, err := tdb.ListAppliedHashSlotDeltas(ctx, hashSlot)
 	zzsym.Assert(err == nil, "listing applied deltas fails")
